@@ -174,3 +174,70 @@ func EvalVariant(prop, vfile, repo, verif string) Outcome {
 	}
 	return Outcome{Name: v.Name, Outcome: "missed", Flipped: flipped, Detail: fmt.Sprintf("expected %v", v.Expect)}
 }
+
+// RunBenign evaluates the property on the three behaviour-preserving transformations
+// (each in its own process, from an in-memory overlay).
+func RunBenign(cfg Config) []Outcome {
+	modes := []string{"rename", "log", "logall"}
+	out := make([]Outcome, len(modes))
+	var wg sync.WaitGroup
+	for i, m := range modes {
+		wg.Add(1)
+		go func(i int, m string) {
+			defer wg.Done()
+			cmd := exec.Command(cfg.Self, "benign", "--property", cfg.Property, "--mode", m, "--repo", cfg.Repo, "--verif", cfg.Verif)
+			b, err := cmd.Output()
+			var o Outcome
+			if err != nil {
+				o = Outcome{Name: m, Outcome: "error", Detail: err.Error()}
+			} else if jerr := json.Unmarshal(lastLine(b), &o); jerr != nil {
+				o = Outcome{Name: m, Outcome: "error", Detail: "bad output: " + jerr.Error()}
+			}
+			out[i] = o
+		}(i, m)
+	}
+	wg.Wait()
+	return out
+}
+
+// EvalBenign applies one transformation as an overlay and evaluates the quick rules of the property.
+func EvalBenign(prop, mode, repo, verif string) Outcome {
+	var ov map[string][]byte
+	var n int
+	var err error
+	switch mode {
+	case "rename":
+		ov, n, err = RenameOverlay(repo)
+	case "log":
+		ov, n, err = LogOverlay(repo, false)
+	case "logall":
+		ov, n, err = LogOverlay(repo, true)
+	default:
+		return Outcome{Name: mode, Outcome: "error", Detail: "unknown mode"}
+	}
+	if err != nil {
+		return Outcome{Name: mode, Outcome: "error", Detail: err.Error()}
+	}
+	env, err := core.Load(repo, ov)
+	if err != nil {
+		return Outcome{Name: mode, Outcome: "error", Detail: "transformed tree does not type-check: " + err.Error()}
+	}
+	p := rules.Get(prop)
+	if p == nil {
+		return Outcome{Name: mode, Outcome: "error", Detail: "unknown property"}
+	}
+	rep := core.RunProperty(env, p, "quick")
+	findings, _ := core.LoadFindings(filepath.Join(verif, "known_findings.json"))
+	rep.ApplyFindings(findings)
+	var flipped []string
+	for _, o := range rep.Bad() {
+		flipped = append(flipped, o.Rule+" :: "+o.Key+" ["+string(o.Verdict)+"]")
+	}
+	if len(flipped) > 8 {
+		flipped = append(flipped[:8], fmt.Sprintf("… %d more", len(flipped)-8))
+	}
+	if len(flipped) > 0 {
+		return Outcome{Name: mode, Outcome: "flipped", Flipped: flipped}
+	}
+	return Outcome{Name: mode, Outcome: "silent", Detail: fmt.Sprintf("%d edits in %d files, %d obligations held", n, len(ov), len(rep.Obls))}
+}
